@@ -55,6 +55,9 @@ func genCase(t *rapid.T, v variant) *caseSpec {
 	c.Audio = g.audio
 	c.CacheGop = rapid.Bool().Draw(t, "cacheGop")
 	c.NoSprop = rapid.IntRange(0, 5).Draw(t, "noSprop") == 0
+	// a stream description that lies about its audio: every audio frame then makes
+	// the TS AAC packetizer panic; the well-formed video must still reach HLS
+	c.BadAac = g.audio && g.codec == esgen.H264 && rapid.IntRange(0, 9).Draw(t, "badAacConfig") == 0
 
 	cfg := esgen.Config{Codec: g.codec, MaxNAL: 900, Tags: true, RealParamSets: true, MaxAUs: 5, MaxGOP: 3, MaxUnits: 14}
 	aus := cfg.DrawSequence(t)
@@ -556,8 +559,11 @@ func record(c *caseSpec, res *result, label string) {
 		outs += "+HLS"
 	}
 	evid.Class(label + ": continuation judged on " + outs)
+	if c.BadAac {
+		evid.Class(label + ": SDP with undecodable AAC config")
+	}
 	if nt {
-		parts := []any{c.Codec, c.Audio, c.CacheGop, c.NoSprop, c.Pos, len(c.Prefix)}
+		parts := []any{c.Codec, c.Audio, c.CacheGop, c.NoSprop, c.BadAac, c.Pos, len(c.Prefix)}
 		for h := range c.Hostile {
 			parts = append(parts, c.Hostile[h].Ch, c.Hostile[h].bytes())
 		}
